@@ -23,8 +23,9 @@ CLAIM = ('Every one of the ~230 parse-error sites (whether or not any input reac
          'ParseError at an error site; errors are recorded before the strict raise through a single funnel, '
          'and no handler on the parse path can swallow the exception. Holds for all sites, not for sampled '
          "inputs. The stream's position counters are re-initialised by reset(); errors of a pass abandoned for "
-         'an encoding restart are treated alike in both modes (known finding: they are not).')
-NOT_DECIDED = ("positions inside the input, 'conforming documents record no errors', other exception types raised by "
+         'an encoding restart are treated alike in both modes (known finding: they are not).'
+         " A handler that records a parse error on every call implements a cell of the standard's tables whose rule is a parse error (56 handlers, table transcribed by hand).")
+NOT_DECIDED = ("positions inside the input, 'conforming documents record no errors' beyond the unconditional-error clause (tokenizer error cells are not transcribed), other exception types raised by "
                "unrelated defects.")
 MODULES = ["html5parser.py", "_tokenizer.py", "_inputstream.py", "constants.py",
            "treebuilders/base.py"]
